@@ -25,7 +25,7 @@ def profiles(nmax, dmax, nmin=1):
             yield ds
 
 
-def build(macro, depths, flavour=None, handler=None, lets=(), rich=False, readers=(), hpos=None, wrap=False, init_ev=False, gated=None, failop=None, hexpr_ev=False, err_after=False, capstep=False, err_defer_cap=False, init_form=None):
+def build(macro, depths, flavour=None, handler=None, lets=(), rich=False, readers=(), hpos=None, wrap=False, init_ev=False, gated=None, failop=None, hexpr_ev=False, err_after=False, capstep=False, err_defer_cap=False, init_form=None, cap0=False):
     """lets: iterable of (branch, is_mut); readers: iterable of (reader_branch, step>=1) where the capture of
     that branch-step snapshots every visible name; rich: every step >= 1 carries a capture, an error-side
     callback and a non-closure operand (C06); failop (Option flavour, sync): how a step fails — None (`=>` and_then) | "filter"
@@ -80,6 +80,11 @@ def build(macro, depths, flavour=None, handler=None, lets=(), rich=False, reader
     branches = []
     for b, d in enumerate(depths):
         items = []
+        if cap0:
+            # step 0 continues with an INSTANT operator whose operand is a block capture: the capture is evaluated up front by the
+            # caller, the initial value (and the operator) still belong to the branch (its thread / task)
+            op0 = "|>" if (is_try or is_async or wrap) else "->"
+            items.append(Op(op0, [B("ev0(\"c.0.%d.0\"); |v: i32| v" % b)]))
         for k in range(1, d):
             cb = "|v: i32| { ev(\"%d.%d.f\", &v); %s }" % (b, k, outcome(b, k, "v + 1"))
             snap = ""
